@@ -15,6 +15,10 @@ PTKinds == << <<"Honest", "Honest", 0, 4>>, <<"Silent", "Silent", 0, 4>>, <<"Sta
 PTLiveQuick == << <<"Honest", "Honest", 0, 4>>, <<"Silent", "Silent", 0, 4>>, <<"Stall", "Stall", 1, 4>>,
                   <<"CloseEarly", "CloseEarly", 1, 4>>, <<"BadSig", "BadSig", 1, 4>>, <<"CloseEarly", "Honest", 1, 4>> >>
 
+\* follow: a peer that lies in its chain-info packet and serves its own self-signed chain comes first in
+\* the operator's list (the peer ids of a mix are ordered by type index)
+PTFollow == << <<"LyingInfo", "LyingInfo", 0, 4>> >> \o PTQuick
+
 \* both fault positions, an honest peer that is behind, every liar turning honest
 PTFull == PTQuick \o
           << <<"Stall", "Stall", 0, 4>>, <<"CloseEarly", "CloseEarly", 0, 4>>, <<"BadSig", "BadSig", 0, 4>>,
